@@ -1,4 +1,4 @@
-\* c42
+\* 4 candidates, default argument shape (mandatory session 1, DSC mandatory)
 SPECIFICATION Spec
 CONSTANTS
   Cand <- Cand4
